@@ -328,6 +328,24 @@ pub fn families(ctx: &Ctx, c02: bool) -> Vec<Family> {
         }
     }));
 
+    // (h) special characters at the very start / end of otherwise ordinary texts
+    fams.push(Family::new("special-at-edges", tier.pick(8, 64), move |_c, rng, emit| {
+        const SPECIAL: [&str; 12] = ["\u{feff}", "\u{0}", "\u{a0}", "\u{b}", "\u{c}", "\u{85}", "\u{2028}", "\u{200b}", "\r", "\u{feff}\u{feff}", "\u{fffd}", "\u{10ffff}"];
+        for _ in 0..20 {
+            let base = if rng.chance(1, 2) {
+                let s = corpus::seeds();
+                s[rng.below(s.len())].1.clone()
+            } else {
+                gram::program(rng, GramOpts { budget: 30, ..Default::default() }).1
+            };
+            for sp in SPECIAL {
+                if !emit(text_case(format!("{sp}{base}"))) || !emit(text_case(format!("{base}{sp}"))) {
+                    return;
+                }
+            }
+        }
+    }));
+
     if c02 {
         // (g) adversarial unterminated constructs at every token boundary
         fams.push(Family::new("unterminated-everywhere", tier.pick(40, 400), move |_c, rng, emit| {
